@@ -57,8 +57,9 @@ impl World {
                     return Err("pool document has unconsumed input".into());
                 }
                 if i != 1 {
-                    // keep the id ranges of different documents apart (ids are per document)
-                    for _ in 0..(100 * i) {
+                    // keep the id ranges of different documents apart (ids are per document; a pool has < 64 nodes),
+                    // so that a foreign node met inside the main document is not mistaken for a main node
+                    for _ in 0..64 {
                         let _ = doc.create_comment("pad");
                     }
                 }
